@@ -40,7 +40,7 @@ Lemma seg_target_matches_c t : seg_target_matches c' t = seg_target_matches c t.
 Proof. unfold seg_target_matches. rewrite ckk. reflexivity. Qed.
 Lemma regular_lists_c sg : regular_lists c' sg = regular_lists c sg.
 Proof.
-  unfold regular_lists. rewrite ckk, ckind.
+  unfold regular_lists. rewrite ckk.
   rewrite (existsb_ext (seg_target_matches c') (seg_target_matches c) (sg_inc_ctx sg) seg_target_matches_c).
   rewrite (existsb_ext (seg_target_matches c') (seg_target_matches c) (sg_exc_ctx sg) seg_target_matches_c).
   reflexivity.
